@@ -164,7 +164,10 @@ class Answer:
     def __init__(self, values):
         self.values = values
     def match(self, args):
-        return unify_arrays(args, self.values)
+        # the variables of a stored fact are its own: every use gets fresh ones
+        renaming = {}
+        values = [_rename_variables(get_value(v), renaming) for v in self.values]
+        return unify_arrays(args, values)
     def __str__(self):
         return f'Answer({[to_python(x) for x in self.values]})'
 
@@ -211,6 +214,17 @@ def to_python(v):
     if isinstance(v, IUnifiable):
         return v.to_python()
     return v
+
+def _rename_variables(term, renaming):
+    """Returns a copy of the dereferenced term in which every unbound variable is
+    replaced by a new one, consistently according to the dict renaming."""
+    if isinstance(term, Variable):
+        if term not in renaming:
+            renaming[term] = Variable()
+        return renaming[term]
+    if isinstance(term, Functor):
+        return Functor(term._name, [_rename_variables(a, renaming) for a in term._args])
+    return term
 
 def unify(term1, term2):
     """Tries to unify term1 and term2. After unification, variables in the terms will be bound.
@@ -524,7 +538,8 @@ class YP(object):
             # indexedanswers
         except YPException as e:
             clauses = []
-        answer = Answer([get_value(v) for v in values])
+        renaming = {}
+        answer = Answer([_rename_variables(get_value(v), renaming) for v in values])
         if append:
             clauses.append(answer)
         else:
